@@ -48,7 +48,8 @@ def process_signature(app, what, name, obj, options,
                       sig, return_annotation):
     try:
         parent, obj = fetch_dotted_name(name)
-    except AttributeError:
+    except Exception:
+        # also names without a dot (modules): nothing to look up in
         return sig, return_annotation
     if isinstance(obj, instancemethod): # python 2 unbound methods
         obj = obj.__func__
@@ -58,9 +59,10 @@ def process_signature(app, what, name, obj, options,
             # refuse to be bound to a plain object (TypeError)
             obj = _util.safe_get(obj, object(), type(parent))
         found = specifiers.signature(obj)
-    except (TypeError, ValueError):
+    except Exception:
         # inspect.signature raises ValueError if obj is callable but it can't
-        # determine a signature, eg. built-in objects
+        # determine a signature, eg. built-in objects; a forger may need a
+        # real instance (AttributeError)
         return sig, return_annotation
     try:
         sig = found.evaluated()
